@@ -593,6 +593,14 @@ def analyse(tier, seed):
         dump = json.loads(subprocess.run([os.path.join(VERIF, "bin", "grammardump"), os.path.join(REPO, "internal/route")],
                                          capture_output=True, text=True, check=True).stdout)
         try:
+            if dump.get("unresolved"):
+                raise Unsupported("lexer/grammar source uses expressions the extractor cannot evaluate: %s" % dump["unresolved"])
+            for st, rules in dump["states"].items():
+                for r in rules:
+                    if not r.get("include") and not r.get("pattern"):
+                        raise Unsupported("lexer rule %s/%s has no extractable pattern" % (st, r.get("name")))
+            if not dump["states"] or "Route" not in dump["structs"]:
+                raise Unsupported("lexer rules or grammar structs not found in source")
             toks = lexer_tokens(dump)
             ident_cls = toks["Ident"][1][1] if toks["Ident"][0] == "plus" else None
             regex_cls = toks["Regex"][1][1] if toks["Regex"][0] == "plus" else None
